@@ -169,11 +169,24 @@ Print Assumptions C08_transpile_condition_sound.
     variable called [that] as [that] and captures the instance under verification (the
     repaired [transform_name] reports an error instead, as the model does). *)
 Example C08_transpile_rejects_that :
-  forallb (fun v => match transpile_name (mkTyenv [] [v] [] [] [] [] [(NVar, v, v)]) v with
+  forallb (fun v => match transpile_name (mkTyenv [] [v] [] [] [] [] [(NVar, v, v)] [(s2l "self", s2l "that")] true) v with
                     | Err _ => true | _ => false end)
           [s2l "that"; s2l "aas_types"; s2l "aas_constants"] = true.
 Proof. vm_compute. reflexivity. Qed.
 Print Assumptions C08_transpile_rejects_that.
+
+(** Name resolution order (both transpilers): local variables, then the arguments of the
+    function, then constants, verification functions, enumerations. An argument called like a
+    constant is read as the argument. *)
+Example C08_argument_shadows_global :
+  let G := mkTyenv [] [] [s2l "limit"] [(s2l "limit", TyOther)] [(s2l "limit", [])] []
+                   [(NConst, s2l "limit", s2l "LIMIT"); (NFn, s2l "limit", s2l "limit")]
+                   [(s2l "limit", s2l "limit")] false in
+  transpile_name G (s2l "limit") = Ok (PName (s2l "limit")) /\
+  transpile_name (mkTyenv [] [] (g_consts G) (g_fns G) (g_enums G) [] (g_naming G) [] false) (s2l "limit")
+  = Ok (PAttribute (PName (s2l "aas_constants")) (s2l "LIMIT")).
+Proof. vm_compute. split; reflexivity. Qed.
+Print Assumptions C08_argument_shadows_global.
 
 (** ** The specification of [verify] *)
 
